@@ -306,44 +306,101 @@ def train_case(chk, im, tspec):
               STATE_INDEPENDENT_STD=True)
     case = dict(kind="train", spec=tspec)
     s = dict(actn=tspec["actn"], squash=tspec["squash"], norm=tspec["norm"])
+    nv = int(tspec.get("vmap", 0))
     try:
-        res = jax.jit(functools.partial(ppo.train, TinyEnv()))(cfg, rng=jax.random.PRNGKey(tspec["seed"]))
-        pol = res.policy
+        if nv:   # one training run per seed under vmap: the result (and the exported policy) carries a leading seed axis
+            res = jax.jit(jax.vmap(functools.partial(ppo.train, TinyEnv()), in_axes=(None, 0)))(cfg, jax.random.split(jax.random.PRNGKey(tspec["seed"]), nv))
+        else:
+            res = jax.jit(functools.partial(ppo.train, TinyEnv()))(cfg, rng=jax.random.PRNGKey(tspec["seed"]))
+        pol_all = res.policy
     except Exception as e:  # noqa
         chk.violation(sig(s, "train-or-export-raises"), f"ppo.train / PPOResult.policy raised: {type(e).__name__}: {str(e)[:200]}", case)
         return
-    m = res.metrics
-    act = onp.asarray(m["act"][-1]); obs = onp.asarray(m["obs"][-1]); done = onp.asarray(m["done"][-1]); app = onp.asarray(m["applied"][-1])
-    aux = res.runner_state.env_state.aux
-    lo = onp.asarray(aux["act_scaling"].low); hi = onp.asarray(aux["act_scaling"].high)
     n = 0
-    for t in range(act.shape[0] - 1):
-        for e in range(act.shape[1]):
-            o = jnp.asarray(obs[t, e])
-            try: a = onp.asarray(pol.get_action(o))
-            except Exception as ex:  # noqa
-                chk.violation(sig(s, "get_action-raises"), f"get_action raised after real training: {type(ex).__name__}: {str(ex)[:200]}", case); return
-            # (i) the trainer's own deterministic action for this observation, rescaled by the model's unsquash1 with env 0's bounds
-            raw = act[t + 1, e].astype(onp.float32)
-            ref = (0.5 * (onp.tanh(raw) + 1.0) * (hi[0] - lo[0]) + lo[0]) if tspec["squash"] else onp.minimum(onp.maximum(raw, lo[0]), hi[0])
-            d = close(a, ref.astype(onp.float32), tol=2e-5)
-            if d:
-                chk.violation(sig(s, "train-action-differs"), f"exported policy differs from the trainer's evaluation action (pi.mean through the "
-                              f"action scaling) on an observation of the last evaluation roll-out: {d}",
-                              dict(case, obs=obs[t, e].tolist(), policy=a.tolist(), trainer=ref.tolist())); return
-            # (ii) what the environment really received at that step (not available on the step where the episode ended)
-            if not done[t + 1, e]:
-                d = close(a, app[t + 1, e], tol=2e-5)
+    for k in range(max(nv, 1)):
+        pick = (lambda x: x[k]) if nv else (lambda x: x)
+        pol = jax.tree_util.tree_map(pick, pol_all)
+        m = jax.tree_util.tree_map(pick, res.metrics)
+        act = onp.asarray(m["act"][-1]); obs = onp.asarray(m["obs"][-1]); done = onp.asarray(m["done"][-1]); app = onp.asarray(m["applied"][-1])
+        aux = res.runner_state.env_state.aux
+        lo = onp.asarray(pick(aux["act_scaling"].low)); hi = onp.asarray(pick(aux["act_scaling"].high))
+        for t in range(act.shape[0] - 1):
+            for e in range(act.shape[1]):
+                o = jnp.asarray(obs[t, e])
+                try: a = onp.asarray(pol.get_action(o))
+                except Exception as ex:  # noqa
+                    chk.violation(sig(s, "get_action-raises"), f"get_action raised after real training: {type(ex).__name__}: {str(ex)[:200]}", case); return
+                # (i) the trainer's own deterministic action for this observation, rescaled by the model's unsquash1 with env 0's bounds
+                raw = act[t + 1, e].astype(onp.float32)
+                ref = (0.5 * (onp.tanh(raw) + 1.0) * (hi[0] - lo[0]) + lo[0]) if tspec["squash"] else onp.minimum(onp.maximum(raw, lo[0]), hi[0])
+                d = close(a, ref.astype(onp.float32), tol=2e-5)
                 if d:
-                    chk.violation(sig(s, "env-action-differs"), f"exported policy differs from the action the environment received from the "
-                                  f"trainer for the same observation: {d}", dict(case, obs=obs[t, e].tolist(), policy=a.tolist(),
-                                                                                 env_received=app[t + 1, e].tolist())); return
-            n += 1
+                    chk.violation(sig(s, "train-action-differs"), f"exported policy differs from the trainer's evaluation action (pi.mean through the "
+                                  f"action scaling) on an observation of the last evaluation roll-out: {d}",
+                                  dict(case, obs=obs[t, e].tolist(), policy=a.tolist(), trainer=ref.tolist())); return
+                # (ii) what the environment really received at that step (not available on the step where the episode ended)
+                if not done[t + 1, e]:
+                    d = close(a, app[t + 1, e], tol=2e-5)
+                    if d:
+                        chk.violation(sig(s, "env-action-differs"), f"exported policy differs from the action the environment received from the "
+                                      f"trainer for the same observation: {d}", dict(case, obs=obs[t, e].tolist(), policy=a.tolist(),
+                                                                                     env_received=app[t + 1, e].tolist())); return
+                n += 1
     chk.traces_impl += n
     chk.case(("train", json.dumps(tspec, sort_keys=True)), ["real-train", f"act:{tspec['actn']}", "squash" if tspec["squash"] else "clip",
-                                                            "norm" if tspec["norm"] else "no-norm"],
+                                                            "norm" if tspec["norm"] else "no-norm"] + (["vmapped-over-seeds"] if nv else []),
              dict(kind="real ppo.train", spec=tspec, eval_observations_compared=n))
     chk.feat("train-eval-observations", n)
+
+
+# ---------------------------------------------------------------- the training-time wrappers themselves
+def wrapper_case(chk, im, s, nb):
+    """the wrapper stack of ppo.train (SquashActionWrapper -> VecEnvWrapper -> NormalizeVecObservationWrapper) around a stub
+    environment that replays chosen raw observations and reports the action it receives: the policy exported from the resulting
+    env_state must map raw observation e to what the stub received when the actor's mean for the wrapper-normalised
+    observation e was sent through the stack"""
+    import random
+    jax, jnp, onp = im.jax, im.jnp, im.onp
+    from rex import rl
+    r = random.Random(s["seed"] ^ 0x77)
+    ne, od, ad = s["nenv"], s["obs_dim"], s["act_dim"]
+    many = s["norm"] and r.random() < 0.5
+    if many: ne = 130        # with many parallel envs a single outlier exceeds the clip although it enters the running statistics
+    s = dict(s, nenv=ne)
+    def ob(huge): return [(r.choice([-1, 1]) * r.choice([1e3, 1e5, 1e6]) * r.uniform(0.1, 1)) if (huge and r.random() < 0.4) else r.gauss(0, 2) for _ in range(od)]
+    t0 = jnp.asarray(onp.array([ob(False) for _ in range(ne)], dtype=onp.float32))
+    t1 = jnp.asarray(onp.array([ob(e == 0 if many else True) for e in range(ne)], dtype=onp.float32))
+    res0, net, params, f32 = im.make(s, nb)
+    lowv, highv = f32(nb["low"]), f32(nb["high"])
+
+    class Stub(rl.BaseEnv):
+        def __init__(self): self.graph = None
+        def observation_space(self, gs): return rl.Box(-jnp.ones((od,)) * 1e7, jnp.ones((od,)) * 1e7)
+        def action_space(self, gs): return rl.Box(lowv, highv)
+        def reset(self, rng=None): return im.base.GraphState(state={"i": rng}), t0[rng], {}
+        def step(self, gs, action): return gs, t1[gs.state["i"]], jnp.float32(0.0), False, False, {"applied": action}
+
+    env = rl.VecEnvWrapper(rl.SquashActionWrapper(Stub(), squash=s["squash"]))
+    if s["norm"]: env = rl.NormalizeVecObservationWrapper(env)
+    case = dict(spec=dict(s, kind="wrapper"), obs_table=onp.asarray(t1).tolist())
+    try:
+        gsv, nobs0, _ = env.reset(jnp.arange(ne))
+        a0 = net.apply(params, nobs0)[0].mean()
+        gsv1, nobs1, *_ = env.step(gsv, a0)                      # nobs1: what the network is shown for the raw observations t1
+        a1 = net.apply(params, nobs1)[0].mean()
+        _, _, _, _, _, info = env.step(gsv1, a1)                 # info["applied"]: what the environments received for them
+        res = res0.replace(runner_state=res0.runner_state.replace(env_state=gsv1))
+        pol = res.policy
+        got = onp.stack([onp.asarray(pol.get_action(t1[e])) for e in range(ne)])
+    except Exception as ex:  # noqa
+        chk.violation(sig(s, "wrapper-path-raises"), f"training wrapper stack / exported policy raised: {type(ex).__name__}: {str(ex)[:200]}", case); return
+    chk.traces_impl += ne
+    if s["norm"] and float(jnp.max(jnp.abs(nobs1))) >= 10.0: chk.feat("wrapper-stack-observation-clipped")
+    d = close(got, onp.asarray(info["applied"]))
+    if d:
+        chk.violation(sig(s, "wrapper-action-differs"), f"exported policy differs from the action the environment received through the training "
+                      f"wrappers (observation wrapper -> actor mean -> SquashActionWrapper) for the same raw observation: {d}",
+                      dict(case, policy=got.tolist(), env_received=onp.asarray(info["applied"]).tolist()))
 
 
 # ---------------------------------------------------------------- main
@@ -398,10 +455,12 @@ def run(chk, replay=None):
     chk.stage_proofs(kernels=["Policy"])
     quick = chk.tier == "quick"
     r = chk.rnd
+    only_wrapper = False
     if replay:
         rp = json.load(open(replay)); c = rp["case"]
+        only_wrapper = c.get("spec", {}).get("kind") == "wrapper"
         if c.get("kind") == "train": specs, tspecs = [], [c["spec"]]
-        else: specs, tspecs = [c["spec"]], []
+        else: specs, tspecs = [dict(c["spec"], kind="float") if only_wrapper else c["spec"]], []
     else:
         specs = [gen_spec(r, "float") for _ in range(140 if quick else 1400)] + [gen_spec(r, "exact") for _ in range(80 if quick else 600)] + \
                 [gen_spec(r, "unknown-act") for _ in range(8 if quick else 40)]
@@ -410,7 +469,7 @@ def run(chk, replay=None):
             tspecs.append(dict(seed=r.randrange(1 << 20), hidden=r.choice([0, 1, 2, 3]), width=r.choice([4, 8, 16]), actn=ACTS[(i + r.randrange(4)) % 4],
                                squash=(i % 2 == 0) if quick else r.random() < 0.5, norm=(i % 2 == 0) if quick else r.random() < 0.6,
                                nenv=r.choice([2, 4]), obs_dim=r.randint(2, 4), act_dim=r.randint(1, 3), T=r.randint(4, 7),
-                               lr=r.choice([5e-4, 1e-2]), anneal=r.random() < 0.3))
+                               lr=r.choice([5e-4, 1e-2]), anneal=r.random() < 0.3, vmap=(0 if quick or i % 3 else 3)))
     im = Impl()
     import numpy as onp
     # the float32 facts the exact cases rely on
@@ -434,7 +493,13 @@ def run(chk, replay=None):
                                  for x, m, v in zip(nb["obs"], nb["mean"], nb["var"])): f.append("obs-clipped-by-normalisation")
         for h in hist: chk.feat(h)
         chk.case(json.dumps(s, sort_keys=True), f, dict(spec=s))
-        judge(chk, s, nb, out, models.get(i), eo)
+        if not only_wrapper: judge(chk, s, nb, out, models.get(i), eo)
+    wn = 0
+    for s, nb in zip(specs, nbs):
+        if s["kind"] == "float" and not s["batch"] and wn < (30 if quick else 250):
+            wn += 1
+            chk.feat("wrapper-stack-case")
+            wrapper_case(chk, im, s, nb)
     for ts in tspecs: train_case(chk, im, ts)
     chk.extra["rule"] = ("synthetic PPOResults: real ppo.Config / RunnerState / TrainState / GraphState.aux with actor parameters drawn at random "
                          "(depth 0-4 and 11, width 1-64, obs dim 1-8, action dim 1-4, tanh/relu/gelu/softplus, squash or clip, normalisation on "
